@@ -7,11 +7,14 @@ require (
 	github.com/NVIDIA/gpu-operator v1.8.3-0.20250724212111-616690d88d86
 	github.com/go-logr/logr v1.4.3
 	github.com/prometheus-operator/prometheus-operator/pkg/apis/monitoring v0.88.0
+	go.uber.org/mock v0.6.0
 	k8s.io/api v0.34.3
 	k8s.io/apiextensions-apiserver v0.34.3
 	k8s.io/apimachinery v0.34.3
 	k8s.io/client-go v0.34.3
 	k8s.io/klog/v2 v2.130.1
+	k8s.io/kubernetes v1.34.2
+	k8s.io/utils v0.0.0-20251002143259-bc988d571ff4
 	sigs.k8s.io/controller-runtime v0.22.3
 )
 
@@ -86,7 +89,6 @@ require (
 	go.opentelemetry.io/otel/sdk v1.40.0 // indirect
 	go.opentelemetry.io/otel/trace v1.40.0 // indirect
 	go.opentelemetry.io/proto/otlp v1.5.0 // indirect
-	go.uber.org/mock v0.6.0 // indirect
 	go.uber.org/multierr v1.11.0 // indirect
 	go.uber.org/zap v1.27.0 // indirect
 	go.yaml.in/yaml/v2 v2.4.3 // indirect
@@ -129,12 +131,10 @@ require (
 	k8s.io/kube-scheduler v0.34.1 // indirect
 	k8s.io/kubectl v0.34.1 // indirect
 	k8s.io/kubelet v0.34.1 // indirect
-	k8s.io/kubernetes v1.34.2 // indirect
 	k8s.io/metrics v0.34.1 // indirect
 	k8s.io/mount-utils v0.34.1 // indirect
 	k8s.io/pod-security-admission v0.34.1 // indirect
 	k8s.io/sample-apiserver v0.34.1 // indirect
-	k8s.io/utils v0.0.0-20251002143259-bc988d571ff4 // indirect
 	knative.dev/pkg v0.0.0-20250117084104-c43477f0052b // indirect
 	sigs.k8s.io/json v0.0.0-20250730193827-2d320260d730 // indirect
 	sigs.k8s.io/karpenter v1.2.0 // indirect
